@@ -249,6 +249,8 @@ def run(repo, rep):
     # the object wrappers named in the property's observe_at list hand their ellipsoid and projection on
     for q in ('CoordGeo.tm', 'CoordCart.tm'):
         tr.check_function(repo.func('geodepy.coord', q), roles=('ellipsoid', 'prj'))
+    from . import c15
+    c15.delegation_rules(repo, rep, only=('CoordGeo.tm',))
 
 
 class _Filter(object):
